@@ -22,7 +22,7 @@ EXTENDS Naturals, Sequences, FiniteSets, TLC
 Names(ps) == [i \in 1..Len(ps) |-> ps[i].name]
 Filter(ps, k) == LET RECURSIVE Go(_) Go(i) == IF i > Len(ps) THEN <<>> ELSE (IF ps[i].k = k THEN <<ps[i]>> ELSE <<>>) \o Go(i + 1) IN Go(1)
 \* syn's ImplGenerics prints lifetimes first, then the rest in list order, and drops defaults
-PrintImpl(ps) == LET strip(s) == [i \in 1..Len(s) |-> [k |-> s[i].k, name |-> s[i].name, default |-> FALSE]]
+PrintImpl(ps) == LET strip(s) == [i \in 1..Len(s) |-> [k |-> s[i].k, name |-> s[i].name, bound |-> s[i].bound, default |-> FALSE]]
                      nonLt == LET RECURSIVE Go(_) Go(i) == IF i > Len(ps) THEN <<>> ELSE (IF ps[i].k # "lt" THEN <<ps[i]>> ELSE <<>>) \o Go(i + 1) IN Go(1)
                  IN strip(Filter(ps, "lt") \o nonLt)
 Fresh(k, name) == [k |-> k, name |-> name, bound |-> FALSE, default |-> FALSE]
@@ -57,6 +57,10 @@ Scope(family, decl) == LET h == ImplHeader(family, decl)
 Order(family, decl) == LET p == ImplHeader(family, decl).params IN
     /\ \A i, j \in 1..Len(p) : (i < j /\ p[j].k = "lt") => p[i].k = "lt"
     /\ \A i \in 1..Len(p) : ~p[i].default
+\* what the declaration demands of its parameters (inline bounds; the where-clause is carried by split_for_impl) is
+\* demanded by the impl: PrintImpl keeps `bound`, and no family rebuilds the where-clause from scratch
+Bounds(family, decl) == LET p == ImplHeader(family, decl).params IN
+    \A i \in 1..Len(decl) : decl[i].bound => \E j \in 1..Len(p) : p[j].name = decl[i].name /\ p[j].bound
 \* fresh parameters do not collide with the user's
 FreshOk(family, decl) == LET h == ImplHeader(family, decl) IN
     \A i, j \in 1..Len(h.params) : i # j => h.params[i].name # h.params[j].name
